@@ -17,6 +17,7 @@ import (
 	"reflect"
 	"runtime"
 	"strings"
+	"time"
 )
 
 var (
@@ -159,7 +160,21 @@ func vParam(name string, def int) int {
 	return def
 }
 
-func vNow() int64 { return int64(vIn("now")) }
+// vNow: the instant time.Now() reports during this run. Engine: one symbolic instant shared with the time.Now
+// stub. Native replay: the real clock (harnesses express times relative to it), read early in a second so that
+// the code under test sees the same second.
+func vNow() int64 {
+	t := time.Now()
+	if t.Nanosecond() > 700_000_000 {
+		time.Sleep(time.Duration(1_000_000_000-t.Nanosecond()) * time.Nanosecond)
+		t = time.Now()
+	}
+	return t.Unix()
+}
+
+// vFixNow makes the engine's clock a fixed instant for this path (native replay keeps the real clock; harnesses
+// express times relative to vNow()).
+func vFixNow(t int64) {}
 
 // vConcretize asks the engine to fork over all feasible values of x.
 func vConcretize(x int) int { return x }
